@@ -149,3 +149,26 @@ prop("C02",
                 "statement lists alteration, truncation and replacement). Virtual time (testing/synctest).",
      technique="in-flight fault injection on a simulated network (exhaustive byte/truncation enumeration) with online outcome monitors and offline key-uniqueness check",
      assumptions=["go1.26 testing/synctest virtual time", "ML-KEM implicit rejection is observed only through the handshake outcome"])
+
+prop("C01",
+     level="exploration",
+     parts=[{"engine": "hsk"}],
+     floor={"quick": 200, "thorough": 300},
+     child_timeout={"quick": 900, "thorough": 3000},
+     rule="Grid {discoverable, hidden} x {client verifies server, server verifies client} x verification policy (CA store with/"
+          "without expected name, authorized keys, both, InsecureSkipVerify, nil config, store + vetoing callback) x 14 "
+          "counterpart classes (honest chain, honest self-signed, impostor holding a valid chain / an authorized self-signed "
+          "certificate but another key, other name, expired, not yet valid, wrong type in the leaf slot, leaf signed directly by "
+          "the root, unrelated or missing intermediate, untrusted root, garbage signature, garbage bytes) x seeds (names, clock "
+          "offsets, validity windows). Counterparts are the real endpoint code with inconsistent configuration. Oracle: success "
+          "(client Handshake()==nil; server Accept offers the flow in discoverable mode / ReadMsg delivers data in both modes, "
+          "also after forged and replayed transport packets are injected for the session) implies legitimacy = policy(cert) AND "
+          "holds-key, known by construction. Non-trivial = a grid cell whose handshake ran to an outcome; distinct by "
+          "(mode, direction, policy, class).",
+     level_text="Scenario-grid exploration with ground truth by construction; every cell runs the real handshake code of both "
+                "parties over the simulated network in virtual time. MAC/tag garbage and cross-session transplants of every "
+                "handshake field are enumerated byte-by-byte by the C02 check on the same engine.",
+     level_note="Safety direction only (success implies legitimate); legitimate-but-refused cells are counted, the fully honest "
+                "cell must complete or the run is inconclusive. hopclient/hopserver configuration plumbing is not driven here.",
+     technique="runtime monitoring of real handshakes against impostor/invalid counterparts on a simulated network, ground-truth oracle by construction",
+     assumptions=["go1.26 testing/synctest virtual time"])
